@@ -181,6 +181,7 @@ theorem iterRevLoop_abs (hc : CfgOK c) {s : FStr} (hs : WF c s) (fuel : Nat) : â
       rw [List.take_succ_eq_append_getElem hl, List.reverse_append]; rfl
     rw [key]
     unfold ritInc
+    rw [if_neg hne]
     by_cases h1 : it > 0
     Â· rw [if_pos h1, ih _ _ (by omega) (by omega)]
       have : it - 1 + 1 = it := by omega
